@@ -13,7 +13,8 @@
      query    none of # TAB CR LF             fragment  none of TAB CR LF
      a password only together with a user name. *)
 From Coq Require Import List NArith.
-From Baize Require Import Lib.Wire C18.Model C18.Proofs.
+From Baize Require Import Lib.Wire C18.Model C18.Proofs C18.Unicode C18.UnicodeProofs.
+From Baize Require Lib.Utf8 C04.Static.
 Import ListNotations.
 Local Open Scope N_scope.
 
@@ -147,6 +148,156 @@ Theorem repr_noninterference : forall (p : parts) (pw1 pw2 : str),
     r = lit "URL(" ++ py_repr (url_of (with_pw p stars)) ++ [41].
 Proof. exact repr_noninterference_proof. Qed.
 
+(* ====================================================================== *)
+(* Non-ASCII root paths, paths and query strings (C18/Unicode.v)          *)
+(* ====================================================================== *)
+
+(* Vocabulary (C18/Unicode.v).  Text is a list of code points; [scalar c] says that c is a
+   Unicode scalar value (U+0000..U+D7FF, U+E000..U+10FFFF; the surrogates are excluded because
+   str.encode("utf-8") refuses them: no gateway can carry such a text as bytes).
+     wsgi_text t       = t.encode("utf-8").decode("latin-1"), what PEP 3333 puts into SCRIPT_NAME,
+                         PATH_INFO and QUERY_STRING for the text t (None: not encodable)
+     Static.redecode w = w.encode("latin1").decode("utf8") of URL.__init__ (None: UnicodeEncodeError
+                         or UnicodeDecodeError, both ValueError)            [C04/Static.v]
+     environ_of r / scope_of r   the environ / the scope that carries the abstract request r
+                         (r_root, r_path, r_query are texts; the scope's query_string is the UTF-8
+                         byte string, its root_path and path are the texts themselves)
+     url_of_environ e / url_of_scope s   URL(environ=e) / URL(scope=s) as the code computes them
+     request_url x     the validating Request.url accessor: GotUrl u | Http400 | Escapes exn. *)
+
+(* The re-decoding undoes the gateway's rendering: for every text of scalar values the environ
+   rendering exists, and encode("latin1").decode("utf8") of it is the text.  (From C01's
+   utf8_codec; the decoder of C04/Static.v is shown equal to C01's.) *)
+Theorem redecode_roundtrip : forall t : str, forallb scalar t = true ->
+  exists w, wsgi_text t = Some w /\ Static.redecode w = Some t.
+Proof. exact redecode_roundtrip_proof. Qed.
+
+(* ... and it accepts nothing else: an environ text that re-decodes is the rendering of exactly
+   the text it yields (so "the bytes are not valid UTF-8" and "the re-decoding fails" are the same
+   thing), and that text consists of scalar values. *)
+Theorem redecode_only_renderings : forall w t : str, Static.redecode w = Some t ->
+  wsgi_text t = Some w /\ forallb scalar t = true.
+Proof. exact redecode_only_renderings_proof. Qed.
+
+(* The rendering moves no delimiter: an ASCII character ('?', '#', '/', '%', TAB, CR, LF, any C0
+   control) stands in the environ text iff it stands in the text, and every other character of
+   the environ text lies in U+0080..U+00FF (a byte of a multi-byte sequence: C1 controls, NBSP
+   and Latin-1 letters do occur, e.g. U+0145 is shown as U+00C5 U+0085). *)
+Theorem rendering_keeps_ascii : forall (t w : str), wsgi_text t = Some w ->
+  (forall c, c < 128 -> (In c w <-> In c t)) /\
+  (forall x, In x w -> In x t \/ 128 <= x < 256).
+Proof.
+  exact (fun t w H => conj (fun c => rendering_keeps_ascii_proof t w c H) (fun x => rendering_range_proof t w x H)).
+Qed.
+
+(* WSGI = ASGI on Unicode text.  For every scheme, server pair and Host header, and every root
+   path, path and query string over scalar values (nothing else is assumed: the request may lie
+   outside the URL grammar): the scope that carries the request exists and URL(scope=...) is what
+   [scope_url] of C18/Model.v computes from the decoded texts (so [url_components] and
+   [wsgi_asgi_same] speak about it); an environ carries the request iff the server pair is
+   complete or a Host header is present; and URL(environ=...) on that environ — SCRIPT_NAME +
+   PATH_INFO re-decoded, QUERY_STRING turned back into bytes and decoded — is the same value as
+   URL(scope=...): the same URL text and the same five components, or the same exception; the
+   validating accessors answer alike.
+   urlsplit on non-ASCII text: the transcription in C18/Model.v compares code points with the
+   ASCII delimiters only and leaves every other code point where it is, in every component; that
+   CPython does the same (NFKC applies to the netloc only, and only to reject) stays with the
+   correspondence. *)
+Theorem wsgi_asgi_same_unicode : forall r : request,
+  forallb scalar (r_root r) = true -> forallb scalar (r_path r) = true -> forallb scalar (r_query r) = true ->
+  exists s,
+    scope_of r = Some s /\ url_of_scope s = scope_url r /\
+    (environ_of r = None <-> environ_server r = None) /\
+    (forall e, environ_of r = Some e ->
+       url_of_environ e = url_of_scope s /\
+       request_url (url_of_environ e) = request_url (url_of_scope s)).
+Proof. exact wsgi_asgi_same_unicode_proof. Qed.
+
+(* [url_components] for Unicode text, through the gateways.  The premises on root path + path and
+   on the query are those of [url_components] — empty or starting with '/', no '?', '#', TAB, CR,
+   LF (no '#', TAB, CR, LF in the query) — and say nothing about code points >= 128: every scalar
+   value may stand in the path and the query.  The URL computed from the scope and the URL
+   computed from every environ that carries the request are the same URL u, the accessor returns
+   it, and its components are exactly the given ones. *)
+Theorem url_components_unicode : forall (sch : str) (d : N) (src : source) (root pth q : str),
+  default_port sch = Some d -> source_ok src = true ->
+  path_ok (root ++ pth) = true -> query_ok q = true ->
+  forallb scalar root = true -> forallb scalar pth = true -> forallb scalar q = true ->
+  let r := request_of sch src root pth q in
+  exists u s,
+    scope_of r = Some s /\ url_of_scope s = Ok u /\ request_url (url_of_scope s) = GotUrl u /\
+    (forall e, environ_of r = Some e -> url_of_environ e = Ok u /\ request_url (url_of_environ e) = GotUrl u) /\
+    let c := ucomps u in
+    ustr u = sch ++ lit "://" ++ netloc c ++ (root ++ pth) ++ qpart q /\
+    scheme c = sch /\ path c = root ++ pth /\ query c = q /\ fragment c = [] /\
+    netloc c = host_text (source_host src) ++ port_text (source_port d src) /\
+    username_of (netloc c) = None /\ password_of (netloc c) = None /\
+    hostname_of (netloc c) = Some (norm_host (host_bare (source_host src))) /\
+    port_of (netloc c) = Ok (source_port d src).
+Proof. exact url_components_unicode_proof. Qed.
+
+(* Invalid UTF-8 in the path.  An environ whose SCRIPT_NAME + PATH_INFO is the rendering of no
+   text (a lone continuation byte, a truncated sequence, an overlong form, an encoded surrogate, a
+   sequence above U+10FFFF, a character above U+00FF) makes URL(environ=...) raise a ValueError
+   before anything else is looked at, whatever the other keys hold; the accessor answers 400.
+   There is no ASGI counterpart: a scope's path is text, the server has already decoded it. *)
+Theorem invalid_utf8_is_400 : forall e : environ,
+  (forall t, wsgi_text t <> Some (e_script_name e ++ e_path_info e)) ->
+  url_of_environ e = Raise ValueError /\ request_url (url_of_environ e) = Http400.
+Proof. exact invalid_utf8_is_400_proof. Qed.
+
+(* Invalid UTF-8 in the query string — here both interfaces receive bytes.  If the authority can be
+   put together ([authority_known]: a Host header, or a scheme with a default port, or — scope
+   only — no server pair) the accessor answers 400 on either interface; otherwise the KeyError of
+   the scheme table comes first (_build_url decodes the query string last). *)
+Theorem invalid_query_is_400 :
+  (forall e pth, Static.redecode (e_script_name e ++ e_path_info e) = Some pth ->
+     (forall t, wsgi_text t <> Some (e_query_string e)) ->
+     authority_known (e_scheme e) (Some (e_server_name e, Some (e_server_port e))) (e_http_host e) = true ->
+     request_url (url_of_environ e) = Http400) /\
+  (forall s, (forall t, Utf8.utf8 t <> Some (s_query_string s)) ->
+     authority_known (s_scheme s) (s_server s) (s_host s) = true ->
+     request_url (url_of_scope s) = Http400).
+Proof. exact invalid_query_is_400_proof. Qed.
+
+(* Non-vacuity.  Root path "/caf" U+00E9 (Latin-1 and UTF-8 differ), path "/e" U+0301 "/" U+1F600
+   "/" U+0145 (a combining sequence, a non-BMP character, and a character whose bytes C5 85 show
+   as a C1 control in the environ), query "k=" U+2713 "%20" (a percent sign stays as it is): what
+   each gateway hands over, and the one URL both constructors build. *)
+Example unicode_example :
+  forallb scalar ex_root = true /\ forallb scalar ex_path = true /\ forallb scalar ex_query = true /\
+  exists e s u,
+    environ_of ex_request = Some e /\ scope_of ex_request = Some s /\
+    e_script_name e = lit "/caf" ++ [195; 169] /\
+    e_path_info e = lit "/e" ++ [204; 129; 47; 240; 159; 152; 128; 47; 197; 133] /\
+    e_query_string e = lit "k=" ++ [226; 156; 147] ++ lit "%20" /\
+    s_path s = ex_path /\ s_query_string s = lit "k=" ++ [226; 156; 147] ++ lit "%20" /\
+    url_of_environ e = Ok u /\ url_of_scope s = Ok u /\
+    ustr u = lit "https://example.org:8443" ++ ex_root ++ ex_path ++ [63] ++ ex_query /\
+    path (ucomps u) = ex_root ++ ex_path /\ query (ucomps u) = ex_query /\
+    request_url (url_of_environ e) = GotUrl u.
+Proof.
+  exact (conj (proj1 ex_request_scalar) (conj (proj1 (proj2 ex_request_scalar))
+          (conj (proj2 (proj2 ex_request_scalar)) unicode_example_proof))).
+Qed.
+
+(* PATH_INFO "/" + a lone continuation byte, a truncated sequence, an overlong '/', an encoded
+   surrogate, a sequence above U+10FFFF, a euro sign that is no byte: 400 each. *)
+Example invalid_examples :
+  Forall (fun pi => request_url (url_of_environ (ex_environ pi)) = Http400)
+    [ [47; 128]; [47; 226; 130]; [47; 192; 175]; [47; 237; 160; 128]; [47; 244; 144; 128; 128]; [47; 8364] ].
+Proof. exact invalid_examples_proof. Qed.
+
+(* A sequence cut by the SCRIPT_NAME / PATH_INFO border ("/" E2 82 | AC "/x") is whole again in
+   the concatenation the code re-decodes: the path is "/" U+20AC "/x". *)
+Example split_sequence_example :
+  exists u,
+    url_of_environ {| e_scheme := lit "http"; e_server_name := lit "example.org"; e_server_port := 80;
+                      e_http_host := None; e_script_name := [47; 226; 130]; e_path_info := [172; 47; 120];
+                      e_query_string := [] |} = Ok u /\
+    path (ucomps u) = [47; 8364; 47; 120].
+Proof. exact split_sequence_example_proof. Qed.
+
 Print Assumptions split_unsplit.
 Print Assumptions url_components.
 Print Assumptions wsgi_asgi_same.
@@ -157,3 +308,10 @@ Print Assumptions query_update_is_set.
 Print Assumptions query_remove_is_filter.
 Print Assumptions query_roundtrip.
 Print Assumptions repr_noninterference.
+Print Assumptions redecode_roundtrip.
+Print Assumptions redecode_only_renderings.
+Print Assumptions rendering_keeps_ascii.
+Print Assumptions wsgi_asgi_same_unicode.
+Print Assumptions url_components_unicode.
+Print Assumptions invalid_utf8_is_400.
+Print Assumptions invalid_query_is_400.
